@@ -681,6 +681,7 @@ func TestReplay(t *testing.T) {
 	outerT = t
 	pbt.Register(run, def)
 	pbt.Register(run, defBytes)
+	pbt.Register(run, defOverlap)
 	run.Replay(t)
 }
 
